@@ -21,6 +21,7 @@ type PropSpec struct {
 	NotCovered  []string `json:"not_covered"`
 	MinObls     int      `json:"min_obligations"`
 	MinFuncs    int      `json:"min_functions"`
+	TimeoutS    int      `json:"timeout_s"` // per-obligation solver limit of the quick tier (default 10)
 	Replay      map[string]string `json:"replay"` // function key -> replay template name
 }
 
@@ -196,6 +197,9 @@ func cmdCheck(args []string) int {
 	outDir := filepath.Join(*verif, "out", ps.ID)
 	os.RemoveAll(outDir)
 	timeout := 10
+	if ps.TimeoutS > 0 {
+		timeout = ps.TimeoutS
+	}
 	workers := 8
 	if *tier == "thorough" {
 		timeout = 120
